@@ -118,6 +118,7 @@ fn path_rule(hgt: LmsAlgorithm, h: u32) {
     kani::cover!(q == (1u32 << h) - 1, "last leaf reachable");
     kani::cover!(q == 0, "first leaf reachable");
 }
+#[cfg(kani)]
 macro_rules! path_h {
     ($name:ident, $alg:expr, $h:expr) => {
         #[kani::proof]
@@ -127,6 +128,12 @@ macro_rules! path_h {
         #[kani::stub(hbs_lms::verif_hooks::lms::get_tree_element, model_tree_element)]
         #[kani::stub(hbs_lms::verif_hooks::lmots_signing::LmotsSignature::sign, model_ots_sign)]
         #[kani::stub(hbs_lms::verif_hooks::lmots_keygen::generate_private_key, model_ots_private_key)]
+        pub fn $name() { path_rule($alg, $h) }
+    };
+}
+#[cfg(not(kani))]
+macro_rules! path_h {
+    ($name:ident, $alg:expr, $h:expr) => {
         pub fn $name() { path_rule($alg, $h) }
     };
 }
